@@ -19,8 +19,44 @@
 #include <thread>
 #include <vector>
 
+#include <openssl/rand.h>
+
 namespace tp
 {
+// Own OpenSSL's randomness: every execution child is forked from the same parent image, so a counter-based
+// generator installed before the fork makes keys, nonces, ECDSA signatures (whose DER length otherwise varies
+// between 70 and 72 bytes) and session tickets identical in every execution - record sizes and therefore the
+// sequence of socket calls become a function of the choices alone.  Values only; no behaviour is removed.
+namespace detail
+{
+inline uint64_t &randState()
+{
+  static uint64_t s = 0x9e3779b97f4a7c15ull;
+  return s;
+}
+inline int randBytes(unsigned char *buf, int num)
+{
+  uint64_t &s = randState();
+  for (int i = 0; i < num; ++i)
+  {
+    s ^= s << 13;
+    s ^= s >> 7;
+    s ^= s << 17;
+    buf[i] = (unsigned char)(s >> 32);
+  }
+  return 1;
+}
+inline int randStatus() { return 1; }
+inline int randSeed(const void *, int) { return 1; }
+inline int randAdd(const void *, int, double) { return 1; }
+inline void randCleanup() {}
+} // namespace detail
+inline void deterministicRand()
+{
+  static RAND_METHOD m = {detail::randSeed, detail::randBytes, detail::randCleanup, detail::randAdd, detail::randBytes, detail::randStatus};
+  RAND_set_rand_method(&m);
+}
+
 inline sockaddr_in addr(const char *ip, uint16_t port)
 {
   sockaddr_in a{};
@@ -48,7 +84,9 @@ struct PeerConfig
   int minVersion = 0;
   PeerKind kind = PK_TLS;
   std::string toSend; // application bytes the peer sends once the handshake is done
+  std::vector<std::string> moreSends; // further application writes (one TLS record each) after toSend
   std::string sni;
+  int rcvbuf = 65536; // simulated receive buffer of the peer's sockets (small => the other side sees EAGAIN mid-record)
 };
 
 struct PeerConn
@@ -60,6 +98,8 @@ struct PeerConn
   std::string appIn;  // decrypted application bytes received
   std::string rawIn;  // raw bytes received (plaintext / garbage kinds)
   bool sentApp = false;
+  size_t sentParts = 0;   // how many of cfg.moreSends were written completely
+  bool wantWrite = false; // last SSL call asked for writability
   bool sawClientCert = false;
 };
 
@@ -96,7 +136,7 @@ public:
     int fd = ::socket(AF_INET, SOCK_STREAM | SOCK_NONBLOCK, 0);
     sockaddr_in a = addr("127.0.0.1", _port);
     ::connect(fd, (sockaddr *)&a, sizeof a);
-    simk_set_rcvbuf(fd, 65536);
+    simk_set_rcvbuf(fd, cfg.rcvbuf);
     PeerConn c;
     c.fd = fd;
     conns.push_back(c);
@@ -165,6 +205,15 @@ private:
     }
     ERR_clear_error();
   }
+  void interest(PeerConn &c)
+  {
+    if (c.closed)
+      return;
+    epoll_event e{};
+    e.events = EPOLLIN | (c.wantWrite ? EPOLLOUT : 0);
+    e.data.fd = c.fd;
+    ::epoll_ctl(_ep, EPOLL_CTL_MOD, c.fd, &e);
+  }
   void closeConn(PeerConn &c)
   {
     if (c.closed)
@@ -211,6 +260,7 @@ private:
       ::send(c.fd, g, sizeof g, 0);
     }
     pump(c);
+    interest(c);
   }
   void pump(PeerConn &c)
   {
@@ -257,15 +307,32 @@ private:
           closeConn(c);
           return;
         }
+        c.wantWrite = e == SSL_ERROR_WANT_WRITE;
       }
     }
     if (c.handshakeDone)
     {
+      c.wantWrite = false;
       if (!c.sentApp && !cfg.toSend.empty())
       {
         int w = SSL_write(c.ssl, cfg.toSend.data(), int(cfg.toSend.size()));
         if (w > 0)
           c.sentApp = true;
+        else if (SSL_get_error(c.ssl, w) == SSL_ERROR_WANT_WRITE)
+          c.wantWrite = true;
+      }
+      while ((c.sentApp || cfg.toSend.empty()) && c.sentParts < cfg.moreSends.size() && !c.wantWrite)
+      {
+        const std::string &p = cfg.moreSends[c.sentParts];
+        int w = SSL_write(c.ssl, p.data(), int(p.size()));
+        if (w > 0)
+          ++c.sentParts;
+        else
+        {
+          if (SSL_get_error(c.ssl, w) == SSL_ERROR_WANT_WRITE)
+            c.wantWrite = true;
+          break;
+        }
       }
       char b[4096];
       for (;;)
@@ -314,7 +381,7 @@ private:
             int cfd = ::accept4(_lfd, nullptr, nullptr, SOCK_NONBLOCK);
             if (cfd < 0)
               break;
-            simk_set_rcvbuf(cfd, 65536);
+            simk_set_rcvbuf(cfd, cfg.rcvbuf);
             PeerConn c;
             c.fd = cfd;
             conns.push_back(c);
@@ -324,7 +391,10 @@ private:
         }
         for (auto &c : conns)
           if (c.fd == fd && !c.closed)
+          {
             pump(c);
+            interest(c);
+          }
       }
     }
     mc_label("tls-peer:done");
